@@ -25,6 +25,11 @@ pub struct Shared {
     pub distinct_n: u64,
     pub distinct2_n: u64,
     pub sample_len: u64,
+    /// C16 child markers: 0 not reached, 1 about to clone, 2 clone returned
+    pub c16_state: u64,
+    /// bit0 alive, bit1 doomed, bit2 mustlive
+    pub c16_flags: u64,
+    pub c16_target: u64,
     pub ctx: [u8; CTX_CAP],
     pub sample: [u8; SAMPLE_CAP],
     pub distinct: [u64; DISTINCT_CAP],
@@ -82,6 +87,7 @@ stats! {
     p_script_legal_actions, p_unequal_inout_group, p_parallel_edges, p_self_loop_clone, p_dtor_weak_obs,
     p_known_finding, p_other_violation, p_child_restarts, p_pages_used_max, p_release_frames,
     p_c12_after_consume_ops, p_c13_elided_then_collect, p_tail_group, p_raw_ghosts,
+    c16_scenarios, c16_clone_aborted_dead, c16_clone_aborted_doomed, c16_clone_live_ok, c16_clone_unreachable_either, c16_drop_ok, c16_noop,
 }
 
 #[inline]
